@@ -25,6 +25,7 @@ import (
 // The commands print through cli.CliOut / cli.CliErr, which are process-global: calls are serialised.
 
 var cliMu sync.Mutex
+var cliCalls int
 
 var progressRe = regexp.MustCompile(`\r?Processed [0-9.]+% of the file\r?\n?`)
 
@@ -32,6 +33,7 @@ var progressRe = regexp.MustCompile(`\r?Processed [0-9.]+% of the file\r?\n?`)
 func doltCLI(dir, home string, args ...string) (int, string) {
 	cliMu.Lock()
 	defer cliMu.Unlock()
+	cliCalls++
 	ctx := context.Background()
 	if err := os.MkdirAll(dir, 0o755); err != nil {
 		return 99, err.Error()
